@@ -301,7 +301,27 @@ func c12(c *Ctx) {
 			}
 			checkDecode(x, "one-bad-nibble")
 		}
+		// the caller's buffer is reused: the next record is read into the same memory (other digits, or a nibble above 9) and decoded
+		// again - what comes out is what is in the buffer now
+		if m > 0 && i%3 == 0 {
+			buf := make([]byte, m)
+			for k := range buf {
+				buf[k] = byte(r.Pick(10))<<4 | byte(r.Pick(10))
+			}
+			checkDecode(buf, "reused-buffer:first")
+			for k := range buf {
+				buf[k] = byte(r.Pick(10))<<4 | byte(r.Pick(10))
+			}
+			if r.Chance(0.4) {
+				buf[r.Pick(m)] |= 0xa0
+			}
+			checkDecode(buf, "reused-buffer:overwritten")
+		}
 	}
+	// zero bytes decode to zero digits - whether the empty slice is nil or not
+	checkDecode(nil, "nil")
+	checkDecode([]byte(nil)[0:0], "nil")
+	checkDecode(make([]byte, 0, 8), "empty")
 	// every Unicode code point as a one character string and embedded between digits (all of the BMP; beyond it
 	// every code point in thorough, every 7th in quick), partitioned over batches; plus invalid UTF-8 bytes
 	step := 7
